@@ -22,16 +22,16 @@ CHECKS = {
              "is executed on the real KeyedSet in 4 item flavours x typed x enforce, plus random histories over 10 keys; TLC judges every event. Exhaustive in the bound.",
         note=TB, technique="TLA+ spec + TLC model checking; spec->code replay of every (state, action); TLC-judged traces", ref="3 C14"),
     "C12": dict(
-        text="TLC model-checks SpecProperty.tla (all 16 option combinations x {plain, spec-class unmanaged, spec-class managed+preparer} hosts; single dict slot vs "
+        text="TLC model-checks SpecProperty.tla (all 16 option combinations x {plain, spec-class unmanaged, spec-class managed+preparer, spec-class managed List[int] with element preparer} hosts, values incl. None; SpecPropertyFrozen.tla: the same machine on frozen hosts; single dict slot vs "
              "declarative ghost (override, cache-since-last-deletion); invariant Slot, action properties Priority/Assign/Delete/Typed) and ClassProperty.tla (32 "
              "configurations over Base<-Mid<-Leaf; Isolation/NoCache/Read). All access paths of length 4 (thorough 5; classproperty 3/4) over the model's action "
              "alphabet plus random longer paths are replayed through the real descriptors; TLC re-runs the model along each observed path and judges every access. "
              "The protocol state graphs are tiny, so all-paths replay decides the history dependence completely up to the path bound.",
         note=TB, technique="TLA+ spec + TLC model checking; exhaustive path replay through the real descriptor; TLC trace validation", ref="3 C12"),
     "C18": dict(
-        text="TLC model-checks Alias.tla: a two-variable machine (target, local override) for all 192 configurations (passthrough x transform x fallback "
-             "{none, immutable, mutable} x path {t, o.t, d[k], o.d[k]} x host {plain, spec class with the alias as managed int attribute} x Deprecated) with "
-             "action properties Shadow, Live, Passthrough, Missing, ReadsPure. All access paths of length 3 (thorough 4) over {alias/target read, write, delete, "
+        text="TLC model-checks Alias.tla: a two-variable machine (target, local override) for all 288 configurations (passthrough x transform x fallback "
+             "{none, immutable, mutable} x path {t, o.t, d[\"k\"], o.d['k'], e[\"k\"].t, e['q'].t, e['k.k'], e[\"k.q\"]} x host {plain, spec class with the alias as managed int attribute} x Deprecated) with "
+             "action properties Shadow, Live, Passthrough, Missing, ReadsPure. All access paths of length 3 (thorough: all of length 3 and every 4th of length 4) over {alias/target read, write (incl. None and the value currently read), delete, "
              "copy-on-write helper, deepcopy} plus random paths of length 8-10 are replayed through real Alias/DeprecatedAlias descriptors, recording value, exception "
              "class, target/override state, fallback identity and warning count; TLC re-runs the model along every observed path. AliasColl.tla is the same machine for collection-typed "
              "aliases of a spec class, whose element helpers must build on the value read through the alias and leave the target's own list alone.",
@@ -193,7 +193,9 @@ CHECKS = {
              "overflow attribute). For every generated method of four real classes the advertised signature is read with inspect.signature, and calls are made with a spy in place "
              "of the implementation: minimal call, each advertised parameter, each pair, too many positionals, unadvertised names (other classes' attributes, init=False, "
              "overflow, private). TLC judges accepted <=> Binds(advertised, call), rejection is TypeError before the behaviour is reached, values and real defaults arrive as "
-             "advertised, nested keywords one-to-one.",
+             "advertised, nested keywords one-to-one. A delivery phase then calls the REAL method (no spy) with every advertised nested keyword, pairs of them, the documented dict form "
+             "of the value next to a keyword and, where **overflow is advertised, names outside the signature -- the whole list twice over -- and TLC judges that each value is found "
+             "where SigOps.Destination says (nested attribute / overflow mapping).",
         note=TB, technique="TLA+ model of call binding (TLC, two formulations) + nested-keyword rule; introspected signatures and spy calls judged by TLC", ref="3 C17"),
 }
 
